@@ -148,38 +148,55 @@ func (r *c26run) straceWorkload(bin string) (kills, rewrites int, viol, trouble 
 	if rewrites == 0 {
 		return 0, 0, nil, nil
 	}
-	for k := 1; k < 400; k++ {
-		if err := r.populate(); err != nil {
-			return kills, rewrites, viol, append(trouble, "populate: "+err.Error())
-		}
-		killed, _, err := r.runBin(bin, []string{"-f", "-qq", "-o", "/dev/null", "-e", "trace=" + straceSet, "-e", fmt.Sprintf("inject=%s:signal=SIGKILL:when=%d", straceSet, k)})
-		if err != nil {
-			return kills, rewrites, viol, append(trouble, "strace: "+err.Error())
-		}
-		if !killed {
-			break // the run has fewer than k matching system calls
-		}
-		kills++
-		for _, f := range r.files {
-			p := f.Rel
-			st := readState(rel(p))
-			o := orig[p]
-			if (st.exists && st.data == o.data) || (ref[p].exists && st.exists && st.data == ref[p].data) {
-				continue
+	// strace counts "the k-th call" per thread, and the Go runtime spreads a
+	// program over several threads, so one combined counter reaches only the
+	// first few calls. Injecting per system call name reaches each kind of
+	// call (the k-th renameat, the k-th unlinkat, ...). Whatever point the kill
+	// lands on, the directory it leaves behind is a real crash state and is
+	// judged.
+	for _, sc := range strings.Split(straceSet, ",") {
+		for k := 1; k < 80; k++ {
+			if err := r.populate(); err != nil {
+				return kills, rewrites, viol, append(trouble, "populate: "+err.Error())
 			}
-			if r.mvgo && strings.HasSuffix(p, ".go") {
-				np := strings.TrimSuffix(p, ".go") + ".xgo"
-				if ns := readState(rel(np)); ns.exists && ref[np].exists && ns.data == ref[np].data {
-					continue
-				}
+			killed, _, err := r.runBin(bin, []string{"-f", "-qq", "-o", "/dev/null", "-e", "trace=" + sc, "-e", fmt.Sprintf("inject=%s:signal=SIGKILL:when=%d", sc, k)})
+			if err != nil {
+				return kills, rewrites, viol, append(trouble, "strace: "+err.Error())
 			}
-			what := "holds neither its original nor its formatted content"
-			if !st.exists {
-				what = "does not exist"
+			if !killed {
+				break // no thread makes k calls of this kind
 			}
-			viol = append(viol, fmt.Sprintf("real xgo killed at file-system call #%d: %s %s [%s]", k, p, what, r.work[0]))
-			return kills, rewrites, viol, trouble
+			kills++
+			if v := r.judgeDir(orig, ref, fmt.Sprintf("real xgo killed on entry of %s call #%d", sc, k)); v != "" {
+				viol = append(viol, v)
+				return kills, rewrites, viol, trouble
+			}
 		}
 	}
 	return kills, rewrites, viol, trouble
+}
+
+// judgeDir applies the crash-point oracle to the directory as it is now.
+func (r *c26run) judgeDir(orig, ref map[string]fstate, when string) string {
+	rel := func(p string) string { return filepath.Join(r.dir, p) }
+	for _, f := range r.files {
+		p := f.Rel
+		st := readState(rel(p))
+		o := orig[p]
+		if (st.exists && st.data == o.data) || (ref[p].exists && st.exists && st.data == ref[p].data) {
+			continue
+		}
+		if r.mvgo && strings.HasSuffix(p, ".go") {
+			np := strings.TrimSuffix(p, ".go") + ".xgo"
+			if ns := readState(rel(np)); ns.exists && ref[np].exists && ns.data == ref[np].data {
+				continue
+			}
+		}
+		what := "holds neither its original nor its formatted content"
+		if !st.exists {
+			what = "does not exist"
+		}
+		return fmt.Sprintf("%s: %s %s [%s]", when, p, what, r.work[0])
+	}
+	return ""
 }
